@@ -532,7 +532,7 @@ def norm(e, depth=0):
     if depth > 80 or not e.args:
         return e
     n = E(e.k, e.name, [norm(a, depth + 1) for a in e.args], e.site, e.ty, e.c)
-    return simplify_variant(n)
+    return simplify_slices(simplify_variant(n))
 
 
 _BRANCH_OK = {'std::result::Result': ('Ok', 'Err'), 'std::option::Option': ('Some', 'None')}
@@ -579,6 +579,56 @@ def _payload(x, want, other, idx):
             return outs[0]
         return E('phi', None, outs, c=x.c)
     return None
+
+
+def _mk_int(v):
+    return E('const', c={'k': 'int', 'bits': str(v), 'ty': 'usize', 'size': 8}, ty='usize')
+
+
+def _add(a, b):
+    """a + b as the checked-add expression the compiler emits (constants folded)"""
+    ca, cb = const_int(a), const_int(b)
+    if ca is not None and cb is not None:
+        return _mk_int(ca + cb)
+    if cb == 0:
+        return a
+    if ca == 0:
+        return b
+    return E('field', '0', [E('binop', 'AddWithOverflow', [a, b], ty='(usize, bool)')], c={'fidx': 0})
+
+
+def simplify_slices(e):
+    """one notation for sub-slices:  x.split_at(k).0 = x[..k],  x.split_at(k).1 = x[k..],  and a slice of a slice is a
+    slice of the original: x[a..][..b] = x[a..a+b], x[a..][b..] = x[a+b..], x[..a][b..] = x[b..a], x[a..c][b..d] = x[a+b..a+d]"""
+    if e.k == 'field' and e.args and e.name in ('0', '1'):
+        c = strip(e.args[0])
+        if c.k == 'call' and last(c.name or '') in ('split_at', 'split_at_mut') and len(c.args) == 2:
+            if e.name == '0':
+                rng = E('aggr', 'Range::Range', [_mk_int(0), c.args[1]], c={'akind': 'adt', 'adt': 'core::ops::range::Range', 'variant': 'Range'})
+            else:
+                rng = E('aggr', 'RangeFrom::RangeFrom', [c.args[1]], c={'akind': 'adt', 'adt': 'core::ops::range::RangeFrom', 'variant': 'RangeFrom'})
+            return simplify_slices(E('call', 'core::slice::index::<impl std::ops::Index<I> for [T]>::index', [c.args[0], rng], site=c.site, ty='&[u8]'))
+    if e.k == 'call' and last(e.name or '') in ('index', 'index_mut') and len(e.args) == 2:
+        outer = strip(e.args[1])
+        inner = strip(e.args[0])
+        if outer.k == 'aggr' and outer.name in ('Range::Range', 'RangeTo::RangeTo', 'RangeFrom::RangeFrom') \
+                and inner.k == 'call' and last(inner.name or '') in ('index', 'index_mut') and len(inner.args) == 2:
+            ir = strip(inner.args[1])
+            if ir.k == 'aggr' and ir.name in ('Range::Range', 'RangeTo::RangeTo', 'RangeFrom::RangeFrom'):
+                i_lo = ir.args[0] if ir.name in ('Range::Range', 'RangeFrom::RangeFrom') else _mk_int(0)
+                i_hi = ir.args[1] if ir.name == 'Range::Range' else ir.args[0] if ir.name == 'RangeTo::RangeTo' else None
+                o_lo = outer.args[0] if outer.name in ('Range::Range', 'RangeFrom::RangeFrom') else _mk_int(0)
+                o_hi = outer.args[1] if outer.name == 'Range::Range' else outer.args[0] if outer.name == 'RangeTo::RangeTo' else None
+                lo = _add(i_lo, o_lo)
+                hi = _add(i_lo, o_hi) if o_hi is not None else i_hi
+                def mk(kind, args):
+                    return E('aggr', '%s::%s' % (kind, kind), args, c={'akind': 'adt', 'adt': 'core::ops::range::' + kind, 'variant': kind})
+                if hi is None:
+                    rng = mk('RangeFrom', [lo])
+                else:
+                    rng = mk('Range', [lo, hi])
+                return simplify_slices(E('call', e.name, [inner.args[0], rng], site=e.site, ty=e.ty))
+    return e
 
 
 def simplify_variant(e):
